@@ -11,6 +11,7 @@ import (
 	"github.com/youchainhq/go-youchain/common"
 	"github.com/youchainhq/go-youchain/core/types"
 	"github.com/youchainhq/go-youchain/params"
+	"github.com/youchainhq/go-youchain/rlp"
 	"github.com/youchainhq/go-youchain/staking"
 
 	"verifharness/cmd/c07/chainkit"
@@ -31,6 +32,11 @@ type txRec struct {
 	hash      common.Hash
 	charged   *big.Int // observed on the real state: sender's balance decrease not explained by value (fee actually paid)
 	burnt     *big.Int
+	hasCode   bool        // the callee had code when the tx ran (EVM call)
+	expRefund uint64      // refund counter the EVM is expected to have granted (15000 SSTORE clear, 24000 self-destruct), 0 otherwise
+	moves     [][3]string // extra observed moves of an EVM call: from-id, to-id, amount
+	decodeOK  bool
+	nonceUsed uint64
 }
 
 type blockRec struct {
@@ -42,17 +48,20 @@ type blockRec struct {
 	burnt      *big.Int
 	gasRewards *big.Int
 	subsidy    *big.Int
+	gasLimit   uint64
 	effective  []chainkit.PendingRecord // records that took effect in this block (period end), in trie order
 	periodEnd  bool
 	lines      []string // the scenario lines of this block (B line first)
 }
 
 type runResult struct {
-	w       *world
-	genesis *ledger
-	blocks  []blockRec
-	stopErr string // the scenario could not be continued (real code panicked / rejected its own block)
-	crash   bool
+	w           *world
+	genesis     *ledger
+	blocks      []blockRec
+	stopErr     string // the scenario could not be continued (real code panicked / rejected its own block)
+	crash       bool
+	outOfDomain int
+	unbuildable bool // the builder's state recorded an error: its block is irreproducible (C06), chain stopped
 }
 
 // splitBlocks groups op lines into blocks; ops before the first B line are dropped.
@@ -68,51 +77,91 @@ func splitBlocks(lines []string) [][]string {
 	return out
 }
 
-func execScenario(lines []string) (*runResult, error) {
-	w, rest, err := parseWorld(lines)
+// session runs a scenario block by block (the adaptive generator looks at the real state between blocks).
+type session struct {
+	w  *world
+	rr *runResult
+}
+
+func newSession(header []string) (*session, []string, error) {
+	w, rest, err := parseWorld(header)
 	if err != nil {
-		return nil, err
+		return nil, nil, err
 	}
 	if err := w.start(); err != nil {
-		return nil, err
+		return nil, nil, err
 	}
-	defer w.stop()
 	rr := &runResult{w: w}
 	d0, err := w.kit.B.Dump()
 	if err != nil {
-		return nil, err
+		w.stop()
+		return nil, nil, err
 	}
 	rr.genesis = w.ledgerOf(d0, nil)
-	k2 := contractAddr(2)
+	return &session{w: w, rr: rr}, rest, nil
+}
+
+func (s *session) close() { s.w.stop() }
+
+// headerLines reproduces the W/GV lines of the world.
+func (w *world) headerLines() []string {
+	out := []string{fmt.Sprintf("W users=%d pool=%s ver=%d", w.users, w.pool, w.ver)}
+	for _, g := range w.gvals {
+		out = append(out, fmt.Sprintf("GV %d %d %s %d", g.key, g.role, g.token, g.status))
+	}
+	return out
+}
+
+func execScenario(lines []string) (*runResult, error) {
+	s, rest, err := newSession(lines)
+	if err != nil {
+		return nil, err
+	}
+	defer s.close()
 	for _, bl := range splitBlocks(rest) {
+		if err := s.runBlock(bl); err != nil {
+			return nil, err
+		}
+		if s.rr.stopErr != "" {
+			break
+		}
+	}
+	return s.rr, nil
+}
+
+// runBlock builds, imports and records one block. bl[0] is the B line.
+func (s *session) runBlock(bl []string) error {
+	w, rr := s.w, s.rr
+	k2 := contractAddr(2)
+	{
 		bo, err := parseOp(bl[0])
 		if err != nil {
-			return nil, err
+			return err
 		}
 		cbKey := bo.user()
 		if cbKey < 0 || cbKey >= maxValKeys {
-			return nil, fmt.Errorf("bad proposer in %q", bl[0])
+			return fmt.Errorf("bad proposer in %q", bl[0])
 		}
 		coinbase := chainkit.Addr(chainkit.Key("val", cbKey))
 		pre, _, err := w.kit.A.NextState()
 		if err != nil {
-			return nil, err
+			return err
 		}
 		if pre.GetValidatorByMainAddr(coinbase) == nil {
 			// rewardsToPool calls logging.Crit (os.Exit) when the proposer is not a validator: such a header cannot come out of
 			// consensus; the scenario is ill-formed here, skip the block.
-			continue
+			return nil
 		}
 		work, err := w.kit.Begin(coinbase)
 		if err != nil {
-			return nil, err
+			return err
 		}
-		br := blockRec{num: work.Header.Number.Uint64(), cbKey: cbKey, burnt: new(big.Int), lines: bl}
+		br := blockRec{num: work.Header.Number.Uint64(), cbKey: cbKey, burnt: new(big.Int), lines: bl, gasLimit: work.Header.GasLimit}
 		k2alive := len(work.State.GetCode(k2)) > 0
 		for _, l := range bl[1:] {
 			o, err := parseOp(l)
 			if err != nil {
-				return nil, err
+				return err
 			}
 			nonces := map[common.Address]uint64{}
 			if u := o.user(); u >= 0 && u < w.users {
@@ -121,9 +170,9 @@ func execScenario(lines []string) (*runResult, error) {
 			}
 			bt, err := w.makeTx(o, nonces)
 			if err != nil {
-				return nil, err
+				return err
 			}
-			tr := txRec{o: o, from: w.idOf(bt.from), gasLimit: bt.gasLimit, gasPrice: bt.gasPrice, value: bt.tx.Value(), to: *bt.tx.To(), hash: bt.tx.Hash(), burnt: new(big.Int), charged: new(big.Int)}
+			tr := txRec{o: o, from: w.idOf(bt.from), gasLimit: bt.gasLimit, gasPrice: bt.gasPrice, value: bt.tx.Value(), to: *bt.tx.To(), hash: bt.tx.Hash(), burnt: new(big.Int), charged: new(big.Int), nonceUsed: bt.tx.Nonce()}
 			if *bt.tx.To() == params.StakingModuleAddress {
 				tr.intrinsic, _ = (&staking.TxConverter{}).IntrinsicGas(bt.tx.Data(), bt.tx.To())
 			} else {
@@ -138,6 +187,13 @@ func execScenario(lines []string) (*runResult, error) {
 			}
 			balBefore := work.State.GetBalance(bt.from)
 			k2bal := work.State.GetBalance(k2)
+			tr.hasCode = len(work.State.GetCode(tr.to)) > 0
+			if tr.to == params.StakingModuleAddress {
+				var m staking.Message
+				tr.decodeOK = rlp.DecodeBytes(bt.tx.Data(), &m) == nil
+			}
+			k0 := contractAddr(0)
+			slotSet := work.State.GetState(k0, common.Hash{}) != (common.Hash{})
 			out := work.Apply(bt.tx)
 			tr.included, tr.err = out.Included, out.Err
 			if strings.HasPrefix(out.Err, "panic:") {
@@ -152,8 +208,18 @@ func execScenario(lines []string) (*runResult, error) {
 				if moved {
 					tr.charged.Sub(tr.charged, tr.value)
 				}
+				// a successful create / deposit / delegation-add detains its payload value
+				if !tr.failed && tr.to == params.StakingModuleAddress {
+					if p, e := chainkit.DecodeStakingTx(w.kit.Signer, bt.tx); e == nil {
+						tr.charged.Sub(tr.charged, p.Value)
+					}
+				}
+				if tr.to == k0 && !tr.failed && slotSet && work.State.GetState(k0, common.Hash{}) == (common.Hash{}) {
+					tr.expRefund = params.SstoreClearRefund
+				}
 				// self-destruct contract k2: value sent to it and its own balance are burnt when it names itself as beneficiary
 				if tr.to == k2 && !tr.failed && k2alive {
+					tr.expRefund = params.SuicideRefundGas
 					data := bt.tx.Data()
 					word := make([]byte, 32)
 					copy(word, data)
@@ -161,8 +227,12 @@ func execScenario(lines []string) (*runResult, error) {
 					if benef == k2 {
 						tr.burnt = new(big.Int).Add(k2bal, tr.value)
 						br.burnt.Add(br.burnt, tr.burnt)
-					} else if benef == bt.from {
-						tr.charged.Sub(tr.charged, new(big.Int).Neg(new(big.Int).Add(k2bal, tr.value)))
+					} else {
+						amt := new(big.Int).Add(k2bal, tr.value)
+						tr.moves = append(tr.moves, [3]string{fmt.Sprint(w.idOf(k2)), fmt.Sprint(w.idOf(benef)), amt.String()})
+						if benef == bt.from {
+							tr.charged.Add(tr.charged, amt)
+						}
 					}
 					k2alive = false
 				}
@@ -174,21 +244,29 @@ func execScenario(lines []string) (*runResult, error) {
 		}
 		if rr.crash {
 			rr.blocks = append(rr.blocks, br)
-			return rr, nil
+			return nil
 		}
 		built, err := work.Finish(nil)
 		if err != nil {
-			return nil, err
+			return err
 		}
 		if built.Panic != "" {
 			rr.stopErr, rr.crash = fmt.Sprintf("block %d: EndBlock panicked: %s", br.num, built.Panic), true
 			rr.blocks = append(rr.blocks, br)
-			return rr, nil
+			return nil
+		}
+		if built.StateErr != "" {
+			// e.g. "rlp: cannot encode negative *big.Int": the pending-total record of a validator went negative; the header's
+			// staking root depends on map iteration order and no node (not even the builder) reproduces it. Not a C07 matter
+			// (the block never becomes part of a chain); reported for C06 and the chain stops here.
+			rr.stopErr, rr.unbuildable = fmt.Sprintf("block %d: builder state error: %s", br.num, built.StateErr), true
+			rr.blocks = append(rr.blocks, br)
+			return nil
 		}
 		if err := w.kit.Import(built.Block); err != nil {
 			rr.stopErr = err.Error()
 			rr.blocks = append(rr.blocks, br)
-			return rr, nil
+			return nil
 		}
 		h := built.Block.Header()
 		br.gasRewards, br.subsidy = new(big.Int).Set(h.GasRewards), new(big.Int).Set(h.Subsidy)
@@ -196,23 +274,23 @@ func execScenario(lines []string) (*runResult, error) {
 		if br.periodEnd {
 			br.effective, err = w.kit.B.RecordsAt(h)
 			if err != nil {
-				return nil, err
+				return err
 			}
 		}
 		d, err := w.kit.B.Dump()
 		if err != nil {
-			return nil, err
+			return err
 		}
 		if !bytes.Equal(common.FromHex(d.Root), h.Root[:]) {
-			return nil, fmt.Errorf("dump root differs from header root at block %d", br.num)
+			return fmt.Errorf("dump root differs from header root at block %d", br.num)
 		}
 		pend, err := w.kit.B.Pending()
 		if err != nil {
-			return nil, err
+			return err
 		}
 		br.led = w.ledgerOf(d, pend)
 		br.parts = br.led.parts()
 		rr.blocks = append(rr.blocks, br)
 	}
-	return rr, nil
+	return nil
 }
